@@ -90,6 +90,12 @@ def handle : Handler := fun j a => do
   let passes ← jNat j "passes"
   if pass + 1 == passes && passes ≥ 6 && !(← jBool j "faulty_run") && panicked == "" then
     let nodes := ((jOpt j "nodes_after").bind fun n => n.getArr?.toOption).getD #[] |>.toList
+    -- "… and bring the master online, writable": whatever flags it started with (its disk is far from full in these runs)
+    match nodes.find? fun nd => jStrOr nd "host" "" == master with
+    | some m =>
+      if jBoolOr m "alive" false && (jBoolOr m "ro" false || jBoolOr m "sro" false || jBoolOr m "offline" false) then
+        a := a.violationSig "C10:master-not-brought-online-and-writable" s!"ro={jBoolOr m "ro" false} sro={jBoolOr m "sro" false} offline={jBoolOr m "offline" false} in {j.compress}"
+    | none => pure ()
     for nd in nodes do
       let h := jStrOr nd "host" ""
       -- a host the operator took out of the registry during the run is nobody's business any more
